@@ -460,6 +460,11 @@ impl DbPool {
                 e.status = ErrorCode::DbInvalid.into();
                 e
             })?;
+        // a memory db keeps its backup in its db file which the rename above does not move
+        let old_file = db_file(owner, db, &self.config);
+        if old_file.exists() {
+            std::fs::rename(old_file, &target_name)?;
+        }
         let backup_path = db_backup_file(owner, db, &self.config);
         if backup_path.exists() {
             let new_backup_path = db_backup_file(new_owner, new_db, &self.config);
